@@ -207,6 +207,15 @@ func oracleC02(f *sessionFam, w *World, res *Result) []Violation {
 			continue // raw clients submit whatever they like; C09/C10 look at them
 		}
 		ctx := f.sessCtx(a)
+		// signature context: revision-3 sessions that submitted binary messages use the binary payload form
+		sctx := ""
+		if sp.EIO != 4 && sp.Transport == "polling" && !sp.B64 {
+			for _, m := range sp.Sends {
+				if m.Binary {
+					sctx = "v3-binary-payload-form"
+				}
+			}
+		}
 		var sends []Ev
 		cand := map[string]bool{}
 		for _, e := range w.Evs {
@@ -246,9 +255,9 @@ func oracleC02(f *sessionFam, w *World, res *Result) []Violation {
 					if sends[k].S == e.S {
 						dup = true
 						if delivered[k] {
-							l.add("exactly-once", "", fmt.Sprintf("%s [%s]: inbound message %q delivered twice", a, ctx, clip(e.S, 50)))
+							l.add("exactly-once", sctx, fmt.Sprintf("%s [%s]: inbound message %q delivered twice", a, ctx, clip(e.S, 50)))
 						} else {
-							l.add("in-order", "", fmt.Sprintf("%s [%s]: inbound message %q delivered after a later one", a, ctx, clip(e.S, 50)))
+							l.add("in-order", sctx, fmt.Sprintf("%s [%s]: inbound message %q delivered after a later one", a, ctx, clip(e.S, 50)))
 							delivered[k] = true
 						}
 						break
@@ -263,15 +272,15 @@ func oracleC02(f *sessionFam, w *World, res *Result) []Violation {
 						}
 					}
 					if found {
-						l.add("kind-preserved", "", fmt.Sprintf("%s [%s]: inbound message %q delivered with the wrong text/binary kind", a, ctx, clip(e.S, 50)))
+						l.add("kind-preserved", sctx, fmt.Sprintf("%s [%s]: inbound message %q delivered with the wrong text/binary kind", a, ctx, clip(e.S, 50)))
 					} else {
-						l.add("identical-bytes", "", fmt.Sprintf("%s [%s]: application got message %q (len %d) that the client never submitted", a, ctx, clip(e.S, 50), len(e.S)-2))
+						l.add("identical-bytes", sctx, fmt.Sprintf("%s [%s]: application got message %q (len %d) that the client never submitted", a, ctx, clip(e.S, 50), len(e.S)-2))
 					}
 				}
 				continue
 			}
 			if e.Seq < sends[j].Seq {
-				l.add("causal", "", fmt.Sprintf("%s: message %q delivered before it was submitted", a, clip(e.S, 40)))
+				l.add("causal", sctx, fmt.Sprintf("%s: message %q delivered before it was submitted", a, clip(e.S, 40)))
 			}
 			delivered[j] = true
 			i = j + 1
@@ -280,7 +289,7 @@ func oracleC02(f *sessionFam, w *World, res *Result) []Violation {
 		if f.sc.FaultFree && f.ended && readyOf(f.snap[a]) == "open" && f.conformantToEnd(w, a) {
 			for k, s := range sends {
 				if !delivered[k] && f.endAt-s.T > 300*time.Millisecond && (closeSeq == 0 || s.Seq < closeSeq) {
-					l.add("delivered", "", fmt.Sprintf("%s [%s]: message %q submitted at %v on an open session was never delivered to the application", a, ctx, clip(s.S, 50), s.T))
+					l.add("delivered", sctx, fmt.Sprintf("%s [%s]: message %q submitted at %v on an open session was never delivered to the application", a, ctx, clip(s.S, 50), s.T))
 					break
 				}
 			}
